@@ -168,7 +168,13 @@ def _run_check(pid, tier, base_seed, jobs, meta, scratch, t0):
     # ---- sanity gates (a check that explored nothing must not be green)
     gate_msgs = []
     if not harness_errors and not confirmed:
-        for name, minimum in meta.get("gates", {}).get(tier, {}).items():
+        gates = dict(meta.get("gates", {}).get(tier, {}))
+        try:    # gates of workloads added later are kept in one place: checks/extra_gates.json
+            with open(os.path.join(VERIF_DIR, "checks", "extra_gates.json")) as f:
+                gates.update(json.load(f).get(pid, {}).get(tier, {}))
+        except FileNotFoundError:
+            pass
+        for name, minimum in gates.items():
             got = agg["probes"].get(name, agg["faults"].get(name, 0))
             if got < minimum:
                 gate_msgs.append(f"probe {name}={got} < {minimum}")
